@@ -837,4 +837,168 @@ theorem Sparse.setRegionScalar_refines {S : Sparse α} {m : MArr α} (h : SRel S
 
 end rr
 
+/-! ### reading a single element: an all-integer region key -/
+
+/-- every key element is an integer inside `-extent .. extent-1` (and the key has as many
+elements as the tensor has modes) -/
+def intsInRange : List Nat → List RPart → Bool
+  | [], [] => true
+  | e :: es, .int i :: ps => decide (-(e : Int) ≤ i) && decide (i < (e : Int)) && intsInRange es ps
+  | _, _ => false
+
+/-- the subscript an in-range all-integer key addresses -/
+def intsTarget : List Nat → List RPart → List Nat
+  | e :: es, .int i :: ps => (if i < 0 then (i + (e : Int)).toNat else i.toNat) :: intsTarget es ps
+  | _, _ => []
+
+theorem ints_resolve (s : List Nat) (parts : List RPart) (h : intsInRange s parts = true) :
+    InBounds s (intsTarget s parts) ∧
+    Sparse.rewriteNeg s parts = .ok ((intsTarget s parts).map fun x => RPart.int x) ∧
+    Sparse.regionIdx s ((intsTarget s parts).map fun x => RPart.int x) = .ok ((intsTarget s parts).map fun x => [x]) ∧
+    MArr.regionParts false s parts =
+      .ok (List.zipWith (fun e x => (e, [x], false)) s (intsTarget s parts)) := by
+  induction parts generalizing s with
+  | nil =>
+    cases s with
+    | nil => exact ⟨trivial, rfl, rfl, rfl⟩
+    | cons e es => simp [intsInRange] at h
+  | cons p ps ih =>
+    cases s with
+    | nil => simp [intsInRange] at h
+    | cons e es =>
+      cases p with
+      | slice a b c => simp [intsInRange] at h
+      | list l => simp [intsInRange] at h
+      | int i =>
+        simp only [intsInRange, Bool.and_eq_true, decide_eq_true_eq] at h
+        obtain ⟨⟨h1, h2⟩, h3⟩ := h
+        obtain ⟨i1, i2, i3, i4⟩ := ih es h3
+        simp only [intsTarget, List.map_cons]
+        by_cases hneg : i < 0
+        · have hx : (0 : Int) ≤ (e : Int) + i := by omega
+          have hx' : ¬ (0 : Int) ≤ i := by omega
+          have hnn : 0 ≤ i + (e : Int) := by omega
+          have hcast : (((i + (e : Int)).toNat : Nat) : Int) = (e : Int) + i := by omega
+          refine ⟨?_, ?_, ?_, ?_⟩
+          · simp only [hneg, if_true, InBounds]; exact ⟨by omega, i1⟩
+          · simp only [Sparse.rewriteNeg, Sparse.rewriteNegPart, hneg, if_true, i2, bind, Except.bind, hcast]
+          · simp only [hneg, if_true, Sparse.regionIdx, Sparse.partIdx, i3, bind, Except.bind]
+            have : (0 : Int) ≤ ((i + (e : Int)).toNat : Int) := by omega
+            simp [this]
+          · simp only [MArr.regionParts, MArr.regionPart, hx', if_false, hnn, if_true, hneg, i4, bind, Except.bind,
+              pure, Except.pure, List.zipWith_cons_cons]
+        · have hx : (0 : Int) ≤ i := by omega
+          have hlt : i.toNat < e := by omega
+          have hcast : ((i.toNat : Nat) : Int) = i := by omega
+          refine ⟨?_, ?_, ?_, ?_⟩
+          · simp only [hneg, if_false, InBounds]; exact ⟨hlt, i1⟩
+          · simp only [Sparse.rewriteNeg, Sparse.rewriteNegPart, hneg, if_false, i2, bind, Except.bind, hcast]
+          · simp only [hneg, if_false, Sparse.regionIdx, Sparse.partIdx, i3, bind, Except.bind]
+            have : (0 : Int) ≤ ((i.toNat : Nat) : Int) := by omega
+            simp [this]
+          · have hmax : max e (i.toNat + 1) = e := by omega
+            simp only [MArr.regionParts, MArr.regionPart, hx, if_true, hlt, true_or, hneg, if_false, i4, bind,
+              Except.bind, pure, Except.pure, List.zipWith_cons_cons, hmax]
+
+theorem inRegionB_singletons (t r : List Nat) : Sparse.inRegionB (t.map fun x => [x]) r = (r == t) := by
+  induction t generalizing r with
+  | nil => cases r <;> rfl
+  | cons a t ih =>
+    cases r with
+    | nil => rfl
+    | cons b r =>
+      simp only [List.map_cons, Sparse.inRegionB, ih]
+      by_cases hab : b = a
+      · subst hab; simp
+      · have h1 : ([a].contains b) = false := by simp [hab]
+        have h2 : ((b :: r) == (a :: t)) = false := by
+          simp [hab]
+        rw [h1, h2]; rfl
+
+theorem range_filter_succ (n : Nat) (p : Nat → Bool) :
+    (List.range (n + 1)).filter p = (if p 0 then [0] else []) ++ ((List.range n).filter (fun k => p (k + 1))).map (· + 1) := by
+  rw [List.range_succ_eq_map, List.filter_cons, List.filter_map]
+  split <;> rfl
+
+section rd
+variable [AddMonoid α] [DecidableEq α]
+
+theorem filter_lookup (subs : List (List Nat)) (vals : List α) (hn : subs.Nodup) (t : List Nat) :
+    ((List.range subs.length).filter fun k => subs.getD k [] == t).map (fun k => vals.getD k 0) =
+      if t ∈ subs then [vals.getD (subs.idxOf t) 0] else [] := by
+  induction subs generalizing vals with
+  | nil => simp
+  | cons a subs ih =>
+    simp only [List.nodup_cons] at hn
+    rw [List.length_cons, range_filter_succ]
+    have ih' := ih vals.tail hn.2
+    have hshift : ((List.range subs.length).filter fun k => (a :: subs).getD (k + 1) [] == t) =
+        (List.range subs.length).filter fun k => subs.getD k [] == t := by
+      apply List.filter_congr; intro k _; simp
+    rw [hshift, List.map_append, List.map_map]
+    have hvals : ((fun k => vals.getD k 0) ∘ fun x => x + 1) = fun k => vals.tail.getD k 0 := by
+      funext k
+      cases vals with
+      | nil => simp
+      | cons v vs => simp
+    rw [hvals, ih']
+    by_cases hat : a = t
+    · subst hat
+      have : a ∉ subs := hn.1
+      simp [this]
+    · have h1 : ((a :: subs).getD 0 [] == t) = false := by simpa using hat
+      by_cases hm : t ∈ subs
+      · have hidx : (a :: subs).idxOf t = subs.idxOf t + 1 := by
+          rw [List.idxOf_cons]
+          have : (a == t) = false := by simpa using hat
+          simp [this]
+        have hmem : t ∈ a :: subs := List.mem_cons_of_mem _ hm
+        rw [h1, if_pos hm, if_pos hmem, hidx]
+        cases vals with
+        | nil => simp
+        | cons v vs => simp
+      · have hmem : t ∉ a :: subs := by
+          simp only [List.mem_cons, not_or]; exact ⟨fun h => hat h.symm, hm⟩
+        rw [h1, if_neg hm, if_neg hmem]
+        rfl
+
+theorem kvSum_zip_lookup (subs : List (List Nat)) (vals : List α) (hn : subs.Nodup) (hl : subs.length = vals.length)
+    (t : List Nat) : (if t ∈ subs then vals.getD (subs.idxOf t) 0 else 0) = kvSum (subs.zip vals) t :=
+  (kvSum_zip_eq subs vals hn hl t).symm
+
+/-- `S[i1, …, in]` with in-range integers returns the cell as a scalar. -/
+theorem Sparse.getItem_ints {S : Sparse α} {m : MArr α} (h : SRel S m) (parts : List RPart)
+    (hne : parts ≠ []) (hin : intsInRange S.shape parts = true) :
+    (S.getItem (.region parts)).map SpReadOut.toReadOut = m.read (.region parts) := by
+  obtain ⟨hb, hrw, hidx, hrp⟩ := ints_resolve S.shape parts hin
+  generalize ht : intsTarget S.shape parts = t at *
+  have htl : t.length = S.shape.length := hb.length_eq
+  have hpl : parts.length = S.shape.length := by
+    have := regionParts_length hrp
+    have h2 := congrArg List.length (regionParts_read_shape hrp)
+    simp only [List.length_map] at h2
+    omega
+  -- specification side
+  have hemp : parts.isEmpty = false := by cases parts <;> simp_all
+  have hspec : m.read (.region parts) = .ok (.scalar (m.get t)) := by
+    simp only [MArr.read, hemp, Bool.false_eq_true, ↓reduceIte, ← h.shape, hrp, bind, Except.bind]
+    have hk : MArr.keptShape (List.zipWith (fun e x => (e, [x], false)) S.shape t) = [] := by
+      unfold MArr.keptShape
+      rw [List.filter_eq_nil_iff]
+      intro r hr
+      obtain ⟨k, _, rfl⟩ := List.mem_iff_getElem.1 hr
+      simp
+    have ho : outerF ((List.zipWith (fun e x => (e, [x], false)) S.shape t).map (·.2.1)) = [t] := by
+      have : (List.zipWith (fun e x => ((e, [x], false) : Nat × List Nat × Bool)) S.shape t).map (·.2.1) =
+          t.map fun x => [x] := by
+        clear hk hrp hidx hrw hb hspec
+        induction t generalizing S with
+        | nil => simp
+        | cons a t ih' => sorry
+      sorry
+    sorry
+  sorry
+
+end rd
+
 end Pyttb
